@@ -528,8 +528,45 @@ pub fn mutate(rng: &mut Rng, gp: &GenProblem) -> (String, &'static str) {
             }
         }
         9 => {
-            // reference to an undeclared object through the point syntax (silent-drop candidates)
-            let l = *rng.pick(&["nosuch.center = (1, 2)", "nosuch = (1, 2)", "nosuch.x = 3", "nosuch.center.y = 1", "horizontal(nosuch, nosuch)", "radius(nosuch, 3)", "is_arc(nosuch)", "tangent(nosuch, nosuch, nosuch)"]);
+            // reference to an undeclared label: EVERY instruction form of the format, with exactly one
+            // role (chosen at random) naming something that was never declared and the other roles
+            // filled with declared labels of the right kind (where the text has any)
+            const FORMS: [(&str, &str); 24] = [
+                ("@0.x = 3", "P"), ("@0.center.y = 1", "O"), ("@0 = (1, 2)", "P"), ("@0.center = (1, 2)", "O"),
+                ("horizontal(@0, @1)", "PP"), ("vertical(@0, @1)", "PP"), ("coincident(@0, @1)", "PP"),
+                ("point_arc_coincident(@0, @1)", "PA"), ("midpoint(@0, @1, @2)", "PPP"),
+                ("symmetric(@0, @1, @2, @3)", "PPPP"), ("distance(@0, @1, 2)", "PP"),
+                ("parallel(@0, @1, @2, @3)", "PPPP"), ("perpendicular(@0, @1, @2, @3)", "PPPP"),
+                ("lines_at_angle(@0, @1, @2, @3, 30deg)", "PPPP"), ("lines_at_angle(@0, @1, @2, @3, 1rad)", "PPPP"),
+                ("radius(@0, 3)", "C"), ("tangent(@0, @1, @2)", "PPC"), ("arc_radius(@0, 2)", "A"),
+                ("arc_length(@0, 2)", "A"), ("is_arc(@0)", "A"), ("point_line_distance(@0, @1, @2, 1)", "PPP"),
+                ("line(@0, @1)", "PP"), ("lines_equal_length(@0, @1, @2, @3)", "PPPP"), ("line(@1, @0)", "PP"),
+            ];
+            let (tmpl, roles) = *rng.pick(&FORMS);
+            let bad_slot = rng.below(roles.len());
+            let mut l = tmpl.to_string();
+            for (k, role) in roles.chars().collect::<Vec<char>>().into_iter().enumerate().rev() {
+                let good: Option<String> = match role {
+                    'P' => {
+                        let mut pool: Vec<String> = gp.points.clone();
+                        pool.extend(gp.circles.iter().map(|c| format!("{c}.center")));
+                        pool.extend(gp.arcs.iter().flat_map(|a| [format!("{a}.center"), format!("{a}.a"), format!("{a}.b")]));
+                        if pool.is_empty() { None } else { Some(rng.pick(&pool).clone()) }
+                    }
+                    'C' => gp.circles.first().cloned(),
+                    'A' => gp.arcs.first().cloned(),
+                    _ => gp.circles.iter().chain(gp.arcs.iter()).next().cloned(),
+                };
+                let v = if k == bad_slot || good.is_none() {
+                    match role {
+                        'P' => (*rng.pick(&["nosuch", "nosuch", "nosuch.center", "nosuch.a", "nosuch.b"])).to_string(),
+                        _ => "nosuch".to_string(),
+                    }
+                } else {
+                    good.unwrap()
+                };
+                l = l.replace(&format!("@{k}"), &v);
+            }
             (base.replacen("# constraints\n", &format!("# constraints\n{l}\n"), 1), "undeclared-reference")
         }
         10 => {
